@@ -36,6 +36,7 @@ Section Dumps.
     | PNull => [48]
     | PNone => [78] | PTrue => [84] | PFalse => [70] | PEllipsis => [46] | PStopIter => [83]
     | PInt z => if int_i && (-2147483648 <=? z) && (z <? 2147483648) then 105 :: w_long z else dump_long z
+    | PLong z => dump_long z           (* LongTypeForPython3 is an int subclass: dispatch by mro finds dump_long *)
     | PFloat b => 102 :: dump_float_text b
     | PFloatText s => 102 :: zlen s :: s
     | PComplex (PFloat a) (PFloat b) => 120 :: dump_float_text a ++ dump_float_text b
@@ -67,6 +68,77 @@ Section Dumps.
     | _ => v
     end.
 End Dumps.
+
+(* ---- Python 2 targets: _Marshaller.dump with python_version < (3, 0) on a Python 3 host, and dump_code2 ----
+   What the unmarshaller produced for Python 2 bytecode is written back by kind: a Python 2 str (a host str when its bytes
+   are UTF-8, else bytes) with dump_string as 's' + UTF-8/raw bytes; a Python 2 unicode (UnicodeForPython3) with
+   dump_unicode as 'u' + its payload; a Python 2 int with dump_int ('i', or 'I' + 8 bytes beyond 32 bits); a Python 2 long
+   (LongTypeForPython3) with dump_long.  dump_code2 writes the integer fields with 32 bits from 2.3 and 16 bits before
+   (`ge23`), the code string, names, varnames, filename, name and lnotab with dump_string, the rest with dump. *)
+Definition w_long64 (x : Z) : list Z := w_long x ++ w_long (x / 4294967296).
+Definition dump_int (x : Z) : list Z :=
+  let y := x / 2147483648 in
+  if negb (y =? 0) && negb (y =? -1) then 73 :: w_long64 x else 105 :: w_long x.
+Definition dump_string (v : pv) : list Z := match v with PBin b => 115 :: w_long (zlen b) ++ b | _ => [] end.
+
+Section Dumps2.
+  Variable repr_float : Z -> list Z.
+  Variable ge23 : bool.
+  Definition w_field (x : Z) : list Z := if ge23 then w_long x else w_short x.
+
+  Fixpoint dumps2 (v : pv) : list Z :=
+    let dump_all := fix go (l : list pv) : list Z := match l with [] => [] | x :: r => dumps2 x ++ go r end in
+    match v with
+    | PNull => [48]
+    | PNone => [78] | PTrue => [84] | PFalse => [70] | PEllipsis => [46] | PStopIter => [83]
+    | PInt z => dump_int z
+    | PLong z => dump_long z
+    | PFloat b => 102 :: dump_float_text repr_float b
+    | PFloatText s => 102 :: zlen s :: s
+    | PComplex (PFloat a) (PFloat b) => 120 :: dump_float_text repr_float a ++ dump_float_text repr_float b
+    | PComplex _ _ => []
+    | PBin b => 115 :: w_long (zlen b) ++ b
+    | PText b => 117 :: w_long (zlen b) ++ b
+    | PTuple l => 40 :: w_long (zlen l) ++ dump_all l
+    | PList l => 91 :: w_long (zlen l) ++ dump_all l
+    | PSet l => 60 :: w_long (zlen l) ++ dump_all l
+    | PFrozenSet l => 62 :: w_long (zlen l) ++ dump_all l
+    | PDict kv => 123 :: (fix go (l : list (pv * pv)) : list Z := match l with [] => [] | (k, x) :: r => dumps2 k ++ dumps2 x ++ go r end) kv ++ [48]
+    | PCode [argc; _; _; nloc; stk; fl; first] [code; consts; PTuple names; PTuple varn; freev; cellv; fname; name; _; lnotab; _] =>
+        99 :: w_field argc ++ w_field nloc ++ w_field stk ++ w_field fl
+           ++ dump_string code ++ dumps2 consts
+           ++ (40 :: w_long (zlen names) ++ flat_map dump_string names)
+           ++ (40 :: w_long (zlen varn) ++ flat_map dump_string varn)
+           ++ dumps2 freev ++ dumps2 cellv ++ dump_string fname ++ dump_string name
+           ++ w_field first ++ dump_string lnotab
+    | PCode _ _ => []
+    end.
+End Dumps2.
+
+(* does the tree hold a float that was read from its decimal text (marshal 'f' / 'x', bytecode before 2.5)?  The writer prints such a
+   float again with the host's repr(), which the correspondence cannot predict from the text: those payloads are compared by value only. *)
+Fixpoint has_float_text (v : pv) : bool :=
+  let any := fix go (l : list pv) : bool := match l with [] => false | x :: r => has_float_text x || go r end in
+  match v with
+  | PFloatText _ => true
+  | PComplex a b => has_float_text a || has_float_text b
+  | PTuple l | PList l | PSet l | PFrozenSet l => any l
+  | PDict kv => (fix go (l : list (pv * pv)) : bool := match l with [] => false | (k, x) :: r => has_float_text k || has_float_text x || go r end) kv
+  | PCode _ objs => any objs
+  | _ => false
+  end.
+
+(* does the tree hold a set or frozenset with two or more members?  The writer emits the members in the host's iteration order. *)
+Fixpoint has_multi_set (v : pv) : bool :=
+  let any := fix go (l : list pv) : bool := match l with [] => false | x :: r => has_multi_set x || go r end in
+  match v with
+  | PSet l | PFrozenSet l => (1 <? zlen l) || any l
+  | PComplex a b => false
+  | PTuple l | PList l => any l
+  | PDict kv => (fix go (l : list (pv * pv)) : bool := match l with [] => false | (k, x) :: r => has_multi_set k || has_multi_set x || go r end) kv
+  | PCode _ objs => any objs
+  | _ => false
+  end.
 
 (* xdis.marsh.loads: the codes of _FastUnmarshaller.dispatch (code objects aside) *)
 Definition marsh_codes : list Z := [48; 78; 84; 70; 83; 46; 105; 73; 108; 102; 120; 115; 116; 82; 117; 40; 91; 123; 60; 62].
